@@ -17,6 +17,9 @@ def run(ctx):
     # duplicated ECH extensions of both kinds, bad ECH types, empty enc ... : the degenerate-but-parseable hellos
     echcommon.run_family(ctx, ["MCEchHello_c04.cfg"], what="C08 degenerate hello", sample=400 if ctx.quick else None,
                          select=lambda c: c["op"] in ("dupEchBefore", "dupEchInnerBefore", "dupEchAfter", "badEchType", "emptyEnc", "outerTypeInInner", "eoeBadLen", "eoeOdd", "eoeRepeated", "eoeAmplify", "eoeTwice", "svOdd", "innerSvOdd", "sniNameType", "sniTwoNames", "innerSniNameType", "innerTypeNo13"))
+    # degenerate payloads and encapsulated keys for a held key: shorter than an AEAD tag, empty, truncated
+    echcommon.run_family(ctx, ["MCEchHello_c02.cfg"], what="C08 degenerate payload", sample=300 if ctx.quick else None,
+                         select=lambda c: c["op"] in ("tinyCt", "emptyCt", "truncCt", "truncEnc", "echTrailing"))
     # a held key whose config lists a suite the server's HPKE does not implement, selected by the client: skipped, never a crash
     echcommon.run_family(ctx, ["MCEchHello_c08k.cfg"], what="C08 unsupported suite")
     echcommon.echconn_slice(ctx, lambda c: any(s in ("ZERO", "ZEROAPP", "SHbad", "CH2no13", "CH2innerType", "CH2noEch") for d, s in c["hist"]), label="degenerate")
